@@ -43,6 +43,11 @@ type SearchResult struct {
 	// index in parent.name.
 	index int
 
+	// The matched node itself. The index may be out of date by the time
+	// the node is replaced (changing the imports of a file adds, merges
+	// or removes declarations); the node is then looked up again.
+	node ast.Node
+
 	data   data.Data
 	region Region
 }
